@@ -29,6 +29,13 @@ def suiteSpecs (c : J) : M J := do
       | .raised _ => false
     return obj [("documented", jlist jstr (documentedNames m)), ("required", jlist jstr (requiredNames m)),
                 ("accepts", jlist (fun b => Lean.Json.bool b) accepts)]
+  | "utils" =>
+    let a ← str (← fld c "a")
+    match (← str (← fld c "fn")) with
+    | "join_path" => return obj [("v", jstr (joinPaths a (← listOf str (← fld c "parts"))))]
+    | "remove_prefix" => return obj [("v", jstr (removePrefix a (← str (← fld c "b"))))]
+    | "remove_suffix" => return obj [("v", jstr (removeSuffix a (← str (← fld c "b"))))]
+    | f => throw s!"bad utils fn {f}"
   | op =>
     let heap ← listOf (listOf int) (← fld c "heap")
     let ms ← listOf decSpecMethod (← fld c "methods")
